@@ -3,22 +3,22 @@
 import json
 
 CLAIMS = {
- "C01": ("mapgraph", "TLC exhaustively checks that the implementation-shaped Map layer refines the ideal dictionary (RefinesDict over every operation instance in every reachable slot layout); every emitted (state, op) transition and seeded random walks through the graph are replayed against the real Map in debug and release and compared on return value and post-content."),
+ "C01": ("mapgraph", "TLC exhaustively checks that the implementation-shaped Map layer refines the ideal dictionary (RefinesDict over every operation instance in every reachable slot layout); every emitted (state, op) transition and seeded random walks through the graph are replayed against the real Map in debug and release and compared on return value and post-content; long recorded executions (capacities up to 300) are validated by TLC against the ideal dictionary; Apalache shows the one-step refinement (with retain's loop invariant and stored-key identity) from ANY well-formed state for every capacity up to 24 (spec/MapRef.tla)."),
  "C02": ("mapgraph", "Conservation invariant (every object stored / returned / destroyed / leaked exactly once) checked by TLC on every transition incl. all cursor episodes (items taken 0..len, dropped or forgotten); replay with an object ledger, placement check after every step, poisoned spare slots and final-drop accounting."),
  "C03": ("mapgraph", "Bounded invariant in every state; every full state x every insertion entry point replayed in debug AND release inside a canary cage: panic/None outcome, content unchanged, rejected objects destroyed once."),
  "C05": ("mapgraph", "UniqueKeys / Bounded / WellFormedPost invariants in TLC; the same predicate (pairwise unequal keys, count = len(), is_empty, len <= capacity, every yielded key looks up its own value) evaluated on the real container after every replayed step."),
- "C07": ("mapgraph", "Set operators defined as the code's projections of the Map operators and checked by TLC against the ideal set (RefinesDict, Mode=set); all transitions replayed on the real Set."),
+ "C07": ("mapgraph", "Set operators defined as the code's projections of the Map operators and checked by TLC against the ideal set (RefinesDict, Mode=set); all transitions replayed on the real Set; recorded Set executions (extend, algebra, capacities up to 300) validated by TLC; the Apalache one-step refinement of spec/MapRef.tla covers the slot-level steps Set is built from."),
  "C09": ("mapgraph", "Cursor episodes (kind x items taken x write) checked against the order-free ideal (DEpisode: each entry once, exact lengths) and replayed: exact len/size_hint before every poll, None after the end, second traversal, clone continuation, writes visible."),
  "C10": ("mapgraph", "Consuming cursor / drain episodes (kind x items taken x drop|forget) checked in TLC (exact contents, lengths, drain always empties) and replayed with ownership accounting."),
  "C11": ("mapgraph", "Every entry method chain on every state x key checked equal to the direct dictionary operation in TLC (DEntry) and replayed: variant, closure call counts, returned reference, untouched other entries."),
  "C12": ("mapgraph", "Object-identity tags carried through every operator: TLC checks which key object is stored / returned / destroyed; the replay binds tags to real object serials and reports identity-only mismatches."),
  "C13": ("mapgraph", "DisjointAgrees invariant on the transcribed one-pass stack algorithm plus RefinesDict against positionwise get_mut for every key tuple (length 0..3 quick, 0..4 thorough); replay checks results, pairwise non-aliasing addresses, writes, panic iff repeated present key."),
- "C16": ("mapgraph", "FromIterator / From<[_;N]> / Extend modelled as the code's loop of inserts and checked by TLC against the fold of ideal inserts for all class sequences of length 0..N+2; replay with a recording source iterator."),
+ "C16": ("mapgraph", "FromIterator / From<[_;N]> / Extend modelled as the code's loop of inserts and checked by TLC against the fold of ideal inserts for all class sequences of length 0..N+2; replay with a recording source iterator that claims nothing / the truth / 'at most zero' through size_hint; recorded executions rebuild emptied containers by collect / From<[_;N]> / extend from up to 26 items (validated by TLC against the fold of ideal inserts)."),
  "C18": ("mapgraph", "UncheckedAgrees (insert_i == insert_ii slot for slot inside the contract) and DisjointAgrees invariants; all contract-satisfying instances replayed against the real unsafe methods."),
  "C19": ("mapgraph", "The model supplies the entry sequence to be rendered (containers) and the not-yet-yielded entries (every cursor kind at every prefix); replay compares the real Debug/Display output with std's rendering of the observed sequence and the listed entries with the model."),
- "C06": ("mapgraph+pairgraph", "Frame condition of the model (no operation touches a heap) bound to the code by a counting global allocator armed around every container call of every replayed transition (single-container and pair graphs), address checks on every returned reference, and a build probe reading the crates the no_std library links against."),
- "C08": ("pairgraph", "AlgebraIsMath invariant on the transcribed lazy adaptors (exact mathematical result, no repeats, left-operand objects, size_hint brackets at every prefix, predicates) over every pair of slot layouts; replay of every (pair, op, prefix) with next / clone / Debug / fold cross-checked and operands re-observed unchanged."),
- "C14": ("pairgraph", "EqIsExtensional invariant (eq.rs transcription == extensional equality, reflexive, symmetric) over all pairs of layouts and several capacity pairs; replay of a == b, b == a, a == a, b == b."),
+ "C06": ("mapgraph+pairgraph", "Frame condition of the model (no operation touches a heap) bound to the code by a counting global allocator armed around every container call of every replayed transition (single-container and pair graphs), address checks on every returned reference, a build probe reading the crates the no_std library links against, element shapes incl. containers whose value is 80-130 KiB, and the capacity-300 trace (requests of 200 keys)."),
+ "C08": ("pairgraph", "AlgebraIsMath invariant on the transcribed lazy adaptors (exact mathematical result, no repeats, left-operand objects, size_hint brackets at every prefix, predicates) over every pair of slot layouts; replay of every (pair, op, prefix) with next / clone / Debug / fold cross-checked and operands re-observed unchanged; the callback-granular model predicts the predicates' answers, the number of items each adaptor yields and the size of a - b; recorded Set executions run the algebra against a second set at capacities up to 300."),
+ "C14": ("pairgraph", "EqIsExtensional invariant (eq.rs transcription == extensional equality, reflexive, symmetric) over all pairs of layouts and several capacity pairs; replay of a == b, b == a, a == a, b == b, a != b; the callback-granular model predicts the result of Map/Set ==, != against a second operand (values differing, panics in comparisons); recorded executions compare the container with its clone and with another container of capacity 310 that differs in at most one value / key / entry (Dict!DEqOther), up to N = 300; == on every element shape."),
  "C15": ("mapgraph", "Clone modelled with clone tags (one clone per key and value object), followed by an operation on either copy and the drop of either copy; TLC checks independence and conservation, the replay checks clone counts per source object, equality, the untouched copy and the ledger."),
  "C04": ("micro+mapgraph", "MapMicro.tla models slot memory at callback granularity (every slot uninit/live/moved/dropped, len, locals, the half-built clone / collection); TLC explores every operation from every state with a panic injected at every callback (and the unwinding that follows) and checks Safe / IdleWellFormed. Every behaviour TLC prints is replayed into the real crate with the panic injected at that callback: the safety predicate (no double destruction, no use of dead/uninitialised data, survivors well-formed, usable, droppable) gates; conformance of the code's callback sequence, outcome and survivors to the model is reported as drift (0 on this tree). A second sweep injects at every callback the CODE makes for every transition of the macro graph."),
  "C17": ("micro+mapgraph", "MapMicro.tla with Adv = TRUE: every key comparison may return either truth value; TLC explores the complete decision tree of every operation (incl. the index stack / split_at_mut logic of get_disjoint_mut with its bounds-check panic edges) and checks Safe (slot accesses inside the live prefix, distinct live slots handed out as &mut, len <= Cap, nothing destroyed twice). Every complete path is replayed into the real crate with a scripted Eq; safety predicate gates, path conformance (comparisons asked, outcome, survivors) is drift. A second sweep enumerates the real code's own decision tree depth-first for every macro-graph transition."),
@@ -29,10 +29,18 @@ NA = {
 PENDING = {
 }
 _B = "TLA+ specification model-checked with TLC; TLC-generated transitions replayed into the real crate (direction A) and recorded executions of the real crate validated by TLC against the specification (trace validation, direction B)"
-TECH = {p: _B for p in ("C01", "C02", "C05", "C07", "C09", "C10", "C11", "C12", "C13", "C18")}
+TECH = {p: _B for p in ("C01", "C02", "C03", "C05", "C07", "C09", "C10", "C11", "C12", "C13", "C18")}
+for _p in ("C01", "C07"):
+    TECH[_p] = _B + "; plus a symbolic one-step refinement check of the slot-level steps with Apalache (spec/MapRef.tla)"
+for _p in ("C03", "C05"):
+    TECH[_p] = _B + "; plus the representation invariant shown inductive with Apalache (capacities up to 32) and proved with TLAPS for unbounded capacity (spec/MapInd.tla, spec/MapProof.tla)"
+for _p in ("C13", "C18"):
+    TECH[_p] = _B + "; plus a symbolic check of the disjoint-borrow stack algorithm with Apalache (spec/MapDisj.tla)"
+for _p in ("C06", "C08", "C14", "C16"):
+    TECH[_p] = _B
 TECH["C04"] = "callback-granular TLA+ model (MapMicro.tla) model-checked with TLC with a panic injected at every callback; every model behaviour replayed into the real crate (conformance), plus an injection sweep over the code's own callbacks"
 TECH["C17"] = "callback-granular TLA+ model (MapMicro.tla, adversarial Eq) model-checked with TLC over every outcome of every key comparison; every model path replayed into the real crate with a scripted Eq (conformance), plus enumeration of the code's own decision tree; debug, release and AddressSanitizer builds"
-NOTE = "exhaustive within the TLC constants recorded in the evidence (capacities 0..2 quick, plus 3 thorough; 3-4 key classes; 2 distinguishable key objects per class; 2 value contents); trace validation samples (does not exhaust) capacities up to 300; element types are the harness' instrumented plain-old-data Key/Val plus five other shapes for the equality-visible part; TLC, rustc and std trusted; the harness holds no model logic, all expected values come from TLC's emitted transitions"
+NOTE = "exhaustive within the TLC constants recorded in the evidence (capacities 0..2 quick, plus 3 thorough; 3-4 key classes; 2 distinguishable key objects per class; 2 value contents); trace validation samples (does not exhaust) capacities up to 300; element types are the harness' instrumented plain-old-data Key/Val plus a dozen other element shapes (zero-sized with and without destructor, Copy, heap-owning, mixed drop glue, large, wide key, Clone without Drop, distinguishable equal keys, PathBuf probed by &Path, containers of 80-130 KiB) for the equality-visible part; TLC, rustc and std trusted; the harness holds no model logic, all expected values come from TLC's emitted transitions"
 
 def main():
     checks = []
@@ -62,10 +70,12 @@ def main():
         "engines": [
             {"name": "pairgraph", "path": "spec/PairSpec.tla + harness/src/pair.rs", "serves_properties": ["C06", "C08", "C14"],
              "kind_free_text": "TLC state graph of two containers with the read-only binary operations, replayed into the real crate"},
-            {"name": "micro", "path": "spec/MapMicro.tla + harness/src/micro.rs + harness/src/sweep.rs", "serves_properties": ["C04", "C17"],
+            {"name": "symbolic", "path": "spec/MapRef.tla, spec/MapInd.tla, spec/MapDisj.tla (Apalache); spec/MapProof.tla (TLAPS)", "serves_properties": ["C01", "C03", "C05", "C07", "C13", "C18"],
+             "kind_free_text": "design-level strengthenings beyond TLC's capacities: one-step refinement of the dictionary from any well-formed state (capacities <= 24), inductive representation invariant (<= 32, and unbounded by TLAPS), the disjoint-borrow stack algorithm for arbitrary states; run inside the named checks"},
+            {"name": "micro", "path": "spec/MapMicro.tla + harness/src/micro.rs + harness/src/sweep.rs", "serves_properties": ["C04", "C08", "C14", "C17"],
              "kind_free_text": "callback-granular TLA+ model of slot memory (panic at every callback / every outcome of every key comparison), every behaviour replayed into the real crate"},
             {"name": "tracecheck", "path": "spec/Trace.tla (over spec/Dict.tla) + harness/src/trace.rs",
-             "serves_properties": ["C01", "C02", "C05", "C07", "C09", "C10", "C11", "C12", "C13", "C18"],
+             "serves_properties": ["C01", "C02", "C04", "C05", "C06", "C07", "C08", "C09", "C10", "C11", "C12", "C13", "C14", "C16", "C18"],
              "kind_free_text": "direction B: long random executions of the real crate (capacities up to 300) recorded per call and validated by TLC against the ideal dictionary"},
             {"name": "mapgraph", "path": "spec/MapSpec.tla + harness/src/replay.rs", "serves_properties": sorted(CLAIMS),
              "kind_free_text": "TLC state graph of one container (Map.tla/MapOps.tla refining Dict.tla) emitted as labelled transitions and replayed into the real crate"},
